@@ -46,11 +46,11 @@ var propDescs = map[string]propDesc{
 		NotDecided: "monotonicity across commits as a history property; uniqueness among live objects.",
 	},
 	"C10": {
-		Decides:    "acyclic lock-class graph; table locks only via the sorted bulk acquire; root-mutex and leaf-mutex regions are non-blocking and call no user code; library transactions always finish and never nest; WriteTxn/Commit/Abort block only on the requested tables' locks and the short mutexes; readers reach no blocking operation; GC triggers are non-blocking (LOCK-GRAPH, SORTED-LOCK, LOCK-SITES, MU-NONBLOCK, TXN-PAIR, WTXN-BLOCKS, READ-NOBLOCK, TRIGGER-NONBLOCK).",
+		Decides:    "acyclic lock-class graph; table locks only via the sorted bulk acquire; root-mutex and leaf-mutex regions are non-blocking and call no user code; library transactions always finish and never nest; WriteTxn/Commit/Abort block only on the requested tables' locks and the short mutexes; readers reach no blocking operation; GC triggers are non-blocking ; every short mutex is released on every exit of the function that took it and the fields it guards are only touched inside its region (LOCK-GRAPH, SORTED-LOCK, LOCK-SITES, MU-NONBLOCK, TXN-PAIR, WTXN-BLOCKS, READ-NOBLOCK, TRIGGER-NONBLOCK, LOCK-PAIR, GUARDED-BY).",
 		NotDecided: "misuse by callers (user code nesting transactions); starvation.",
 	},
 	"C11": {
-		Decides:    "persistence half: no published radix node is written in place; owning constructors copy; iterators/clones freeze the transaction; committed trees start a new epoch; a committed transaction object is retired (IMMUT, OWN-CTOR, FREEZE, EPOCH, TXN-RETIRE restricted to package part).",
+		Decides:    "persistence half: no published radix node is written in place; owning constructors copy; iterators/clones freeze the transaction; committed trees start a new epoch; a committed transaction object is retired (IMMUT, OWN-CTOR, FREEZE, EPOCH, TXN-RETIRE restricted to package part); ranging over an iterator does not modify it (ITER-PURE); the traversal tests for a value with getLeaf() != nil, never isLeaf() (NODE-VALUE-TEST).",
 		NotDecided: "ordered-map semantics; node-size thresholds.",
 	},
 	"C12": {
@@ -58,15 +58,15 @@ var propDescs = map[string]propDesc{
 		NotDecided: "which channel a lookup returns; dropped nodes (count only).",
 	},
 	"C13": {
-		Decides:    "persistence half (IMMUT/OWN-CTOR/FREEZE/EPOCH on package lpm and lpmEntry); descent-loop agreement: never descend past, nor return, a node the query diverged from (LPM-DIVERGE).",
+		Decides:    "persistence half (IMMUT/OWN-CTOR/FREEZE/EPOCH on package lpm and lpmEntry); descent-loop agreement: never descend past, nor return, a node the query diverged from (LPM-DIVERGE); every site that treats a trie node as a stored value tests `imaginary` first (LPM-IMAGINARY); Iterator.All leaves the iterator unmodified (ITER-PURE).",
 		NotDecided: "longest-match / ordering exactness otherwise.",
 	},
 	"C14": {
-		Decides:    "no operation error is dropped; every failure is queued; queue head changes re-arm the timer; popped items are processed; change/success clears (ERR-FLOW, TIMER-REARM).",
+		Decides:    "no operation error is dropped; every failure is queued; queue head changes re-arm the timer; popped items are processed; change/success clears; each retry heap is addressed with its own item index (ERR-FLOW, TIMER-REARM, QUEUE-INDEX-PAIR).",
 		NotDecided: "convergence, bounds in retry periods, round-size interplay.",
 	},
 	"C15": {
-		Decides:    "the reconciler's table writes are CAS-on-reconciled-revision or guarded inserts, never on un-cloned objects, never deletes; prune is gated on initialization and given the full table; StatusSet is copy-on-write (RECONCILER-WRITES, PRUNE-GATE, IMMUT).",
+		Decides:    "the reconciler's table writes are CAS-on-reconciled-revision or guarded inserts, never on un-cloned objects, never deletes; prune is gated on initialization and given the full table; StatusSet is copy-on-write and Pending() gives every status the fresh id unconditionally (RECONCILER-WRITES, PRUNE-GATE, IMMUT).",
 		NotDecided: "that the guards compare the right values for every interleaving.",
 	},
 	"C16": {
@@ -74,11 +74,11 @@ var propDescs = map[string]propDesc{
 		NotDecided: "every clause about durations: never sooner than the minimum backoff, waits that do not shrink, retry within maximum plus one round - run-time quantities with no static handle.",
 	},
 	"C17": {
-		Decides:    "the singleton pair is never mutated in place; migration-before-insert ordering; no use of a published transaction (IMMUT, SINGLETON-FIRST, TXN-RETIRE).",
-		NotDecided: "model exactness, representation switches, JSON/YAML round trip.",
+		Decides:    "the singleton pair is never mutated in place; migration-before-insert ordering; no use of a published transaction; the JSON/YAML decoders decode each element into a fresh variable (IMMUT, SINGLETON-FIRST, TXN-RETIRE, DECODE-FRESH).",
+		NotDecided: "model exactness, representation switches, JSON/YAML round trip beyond the decode-target clause.",
 	},
 	"C18": {
-		Decides:    "the escape table extracted from appendEncode is prefix-free, order-preserving and avoids the minimal separator (exhaustive over all 256 bytes); encodedLength agrees with it; key layout/offset agreement; integer encoders are big-endian and do not narrow (ENC-TABLE, ENC-AGREE, ENC-LAYOUT, ENC-ENDIAN, ENC-NARROW).",
+		Decides:    "the escape table extracted from appendEncode is prefix-free, order-preserving and avoids the minimal separator (exhaustive over all 256 bytes); encodedLength agrees with it; key layout/offset agreement; integer encoders and the LPM key codec are big-endian through encoding/binary and do not narrow or shift a byte out (ENC-TABLE, ENC-AGREE, ENC-LAYOUT, ENC-ENDIAN, ENC-NARROW).",
 		NotDecided: "LPM key masking arithmetic; keys of 64 KiB and more.",
 	},
 	"C19": {
